@@ -1216,7 +1216,7 @@ def replay_pkg(w):
 # containment lemma about the dependency spec of posixpath.join (induction on the number of pieces)
 # ----------------------------------------------------------------------------------------------
 
-def prove(name, hyps, goal, timeout=10000, witness=None):
+def prove(name, hyps, goal, timeout=90000, witness=None):
     """validity of hyps => goal: z3 briefly, then cvc5 (good at word equations), then z3 again"""
     t0 = time.time()
     for budget in (700, timeout):
@@ -1319,7 +1319,9 @@ class Choice(LVC):
     def configure(self, I):
         install_unexpected(I)
         self.oc, self.res = callee_model(self.method)
-        install_opaque(I, methods={self.method: abstract_loader_method(self.method, self.oc, self.res, name_index=1)})
+        # members of this task are loaders WITH source access (the class default); ChoiceSourceless covers the others
+        install_opaque(I, methods={self.method: abstract_loader_method(self.method, self.oc, self.res, name_index=1)},
+                       attrs={"has_source_access": lambda I_, st, o, node: [(st, True)]})
         c = self
 
         def inv(ctx):
